@@ -29,6 +29,8 @@ class StepLoop(asyncio.SelectorEventLoop):
         self.hold_time = lambda: False        # while True the virtual clock is frozen (engine paused: the main thread
         #                                       is taking its decision and must not race with timers on the loop)
         self._held = None
+        self.inject_block_timeout = 0.3
+        self._inflight_blocked = False
         self._blocked_point_done = False
         self._inflight = False
         self._helper_done = threading.Event()
@@ -61,9 +63,10 @@ class StepLoop(asyncio.SelectorEventLoop):
         while self._scheduled and self._scheduled[0]._cancelled:
             h = heapq.heappop(self._scheduled)
             h._scheduled = False
-        if self._inflight and self._helper_done.is_set() and not self._ready:
+        if self._inflight and self._helper_done.is_set() and (not self._ready or self._inflight_blocked):
             # the injected call has landed: release the held run step
             self._inflight = False
+            self._inflight_blocked = False
             if self.after_inject is not None:
                 self.after_inject()
             # scheduling point 'landed': a further request may arrive after this one has landed and before the run
@@ -95,8 +98,19 @@ class StepLoop(asyncio.SelectorEventLoop):
                 self._start_injection(fn, p, "blocked")
                 return
         block = not self._ready and not self._stopping and (self._inflight or not self._scheduled or frozen)
-        ev = self._selector.select(None if block else 0)
+        if block and self._inflight and self._held is not None:
+            # the injected call may itself wait for the run task (e.g. RE.abort() between resume() and the wake-up):
+            # if nothing arrives for a while its request has landed and it blocks on run progress -> let the run task go on
+            ev = self._selector.select(self.inject_block_timeout)
+            if not ev and not self._helper_done.is_set() and not self._ready:
+                self._inflight_blocked = True
+                self._ready.appendleft(self._held)
+                self._held = None
+        else:
+            ev = self._selector.select(None if block else 0)
         self._process_events(ev)
+        if not self._ready and self._scheduled and self._inflight and self._inflight_blocked and not frozen:
+            self._vt = max(self._vt, self._scheduled[0]._when)      # the blocked call waits for run progress: time may pass
         if not self._ready and self._scheduled and not self._inflight and not frozen:
             # idle: scheduling point before advancing time
             if self.active():
@@ -109,7 +123,7 @@ class StepLoop(asyncio.SelectorEventLoop):
                     self._start_injection(fn, p, "idle")
                     return
             self._vt = max(self._vt, self._scheduled[0]._when)
-        while self._scheduled and self._scheduled[0]._when <= self._vt and not self._inflight and not frozen:
+        while self._scheduled and self._scheduled[0]._when <= self._vt and (not self._inflight or self._inflight_blocked) and not frozen:
             h = heapq.heappop(self._scheduled)
             h._scheduled = False
             if not h._cancelled:
@@ -127,7 +141,7 @@ class StepLoop(asyncio.SelectorEventLoop):
                     self._held = self._ready.popleft()
                     self._start_injection(fn, p, "step")
                     return
-            if self._inflight and self.is_run_step(h):
+            if self._inflight and not self._inflight_blocked and self.is_run_step(h):
                 # a run step became ready while an injection is in flight (e.g. a timer fired before):
                 # keep it back until the injection has landed
                 if self._held is None:
